@@ -752,7 +752,7 @@ impl Prop for C02 {
     fn plan(&self, tier: Tier) -> Plan {
         Plan::new(match tier {
             Tier::Quick => 10000,
-            Tier::Thorough => 60_000,
+            Tier::Thorough => 100_000,
         })
     }
 
